@@ -4,14 +4,18 @@
 package main
 
 import (
+	"bytes"
+	"context"
 	"encoding/json"
 	"flag"
 	"fmt"
 	"os"
+	"os/exec"
 	"path/filepath"
 	"runtime/debug"
 	"sort"
 	"strings"
+	"time"
 
 	"github.com/rs/zerolog"
 )
@@ -29,6 +33,7 @@ type Case struct {
 	Tags       []string        `json:"tags,omitempty"`
 	Known      string          `json:"known,omitempty"` // signature of a known finding this case reproduces
 	Panic      string          `json:"panic,omitempty"` // the implementation panicked on this input (always a failing input)
+	Coq        string          `json:"coq,omitempty"`   // only in -only (child) output
 	coq        string
 }
 
@@ -41,6 +46,9 @@ type Family struct {
 }
 
 var families = map[string]*Family{}
+
+// gOutDir is the -out directory (scratch space for families that need files).
+var gOutDir string
 
 func register(f *Family) { families[f.ID] = f }
 
@@ -79,6 +87,45 @@ func runRecovered(f *Family, c *Case) (err error) {
 	return f.Run(c)
 }
 
+// runIsolated runs case i in a child process; a crash, a non-zero exit or a hang of the
+// child is recorded as the case's panic (a failing input by itself).
+func runIsolated(c *Case, i int, prop, tier string, seed uint64, replay, out string) {
+	dir := filepath.Join(out, fmt.Sprintf("iso-%d", i))
+	_ = os.MkdirAll(dir, 0o755)
+	defer os.RemoveAll(dir)
+	args := []string{"-property", prop, "-tier", tier, "-seed", fmt.Sprint(seed), "-only", fmt.Sprint(i), "-out", dir}
+	if replay != "" {
+		args = append(args, "-replay", replay)
+	}
+	ctx, cancel := context.WithTimeout(context.Background(), 180*time.Second)
+	defer cancel()
+	cmd := exec.CommandContext(ctx, os.Args[0], args...)
+	var eb bytes.Buffer
+	cmd.Stderr = &eb
+	err := cmd.Run()
+	if err == nil {
+		if b, e := os.ReadFile(filepath.Join(dir, "only.json")); e == nil {
+			var cc Case
+			if json.Unmarshal(b, &cc) == nil {
+				*c = cc
+				c.coq, c.Coq = cc.Coq, ""
+				return
+			}
+		}
+		err = fmt.Errorf("child wrote no result")
+	}
+	msg := eb.String()
+	if ctx.Err() != nil {
+		msg = "the process did not finish within 180 s\n" + msg
+	}
+	// keep the first lines (signal, fault address) and the top of the first stack
+	if len(msg) > 1500 {
+		msg = msg[:1500]
+	}
+	c.Panic = fmt.Sprintf("process crashed (%v): %s", err, msg)
+	c.coq = ""
+}
+
 func main() {
 	prop := flag.String("property", "", "property id (C01..C20)")
 	tier := flag.String("tier", "quick", "quick|thorough|search")
@@ -86,6 +133,8 @@ func main() {
 	out := flag.String("out", "", "output directory")
 	replay := flag.String("replay", "", "replay file (JSON with a case)")
 	maxShard := flag.Int("shard-bytes", 700000, "approximate shard size")
+	isolate := flag.Bool("isolate", false, "run every case in its own child process (used after a crash of the in-process run): a crash or hang becomes the case's panic")
+	only := flag.Int("only", -1, "child mode of -isolate: run only this case index and write it to <out>/only.json")
 	skel := flag.String("skeleton", "", "extract the MulVec protocol skeleton from this Go source file into -out (a .v file)")
 	flag.Parse()
 	if *skel != "" {
@@ -104,6 +153,7 @@ func main() {
 	if err := os.MkdirAll(*out, 0o755); err != nil {
 		panic(err)
 	}
+	gOutDir = *out
 	var cases []*Case
 	if *replay != "" {
 		b, err := os.ReadFile(*replay)
@@ -125,10 +175,30 @@ func main() {
 	tagHist := map[string]int{}
 	distinct := map[string]bool{}
 	nontrivial := 0
+	if *only >= 0 {
+		if *only >= len(cases) {
+			os.Exit(2)
+		}
+		c := cases[*only]
+		c.ID = *only
+		c.Obs = nil
+		if err := runRecovered(f, c); err != nil {
+			fmt.Fprintf(os.Stderr, "case %d (%s): %v\n", *only, c.Kind, err)
+			os.Exit(3)
+		}
+		c.Coq = c.coq
+		b, _ := json.Marshal(c)
+		if err := os.WriteFile(filepath.Join(*out, "only.json"), b, 0o644); err != nil {
+			panic(err)
+		}
+		return
+	}
 	for i, c := range cases {
 		c.ID = i
 		c.Obs = nil
-		if err := runRecovered(f, c); err != nil {
+		if *isolate {
+			runIsolated(c, i, *prop, *tier, *seed, *replay, *out)
+		} else if err := runRecovered(f, c); err != nil {
 			fmt.Fprintf(os.Stderr, "case %d (%s): %v\n", i, c.Kind, err)
 			os.Exit(3)
 		}
